@@ -130,7 +130,8 @@ pub fn exec(op: &str, t: &mut Toks, cx: &mut Ctx) -> Option<String> {
     }
 }
 
-fn one<T: Sc>(rng: &mut Rng, n: usize, m1: usize, m2: usize, class: usize) -> String {
+fn one<T: Sc>(rng: &mut Rng, n: usize, m1: usize, m2: usize, class: usize) -> String { one_k::<T>(rng, n, m1, m2, class, 0) }
+fn one_k<T: Sc>(rng: &mut Rng, n: usize, m1: usize, m2: usize, class: usize, wide: usize) -> String {
     let mm = m1 + m2 + 1;
     let neg1 = T::from_i(-1);
     let mut comp: Vec<Vec<T>> = (0..n).map(|_| (0..mm).map(|_| T::gen(rng, 15, 0)).collect()).collect();
@@ -144,6 +145,9 @@ fn one<T: Sc>(rng: &mut Rng, n: usize, m1: usize, m2: usize, class: usize) -> St
         5 => { if n > 1 { let r = rng.below(n); for c in 0..mm { comp[r][c] = T::zero(); } } }   // singular: zero row
         _ => { for i in 0..n { for c in 0..mm { comp[i][c] = positive(comp[i][c]); } comp[i][m1] = comp[i][m1] + T::from_i(20); } } // positive, dominant (the tested regime)
     }
+    // general magnitudes: every stored value is scaled by a factor 10^[-3,3] / 10^[-12,12] (rounding, cancellation and
+    // the order of summation become visible; the exact oracles do not apply, the bitwise dense-twin ones do)
+    if wide > 0 && !T::is_exact() { for r in comp.iter_mut() { for z in r.iter_mut() { *z = *z * T::gen(rng, 0, wide); } } }
     // second copy: same in-matrix band, different padding
     let mut comp2 = comp.clone();
     let (pad, pad2) = (T::gen(rng, 0, 0), T::gen(rng, 0, 0) + T::from_i(7));
@@ -152,7 +156,7 @@ fn one<T: Sc>(rng: &mut Rng, n: usize, m1: usize, m2: usize, class: usize) -> St
     let rl = if rng.chance(5) { n + 1 } else { n };
     let vl = if rng.chance(5) { n + 1 } else { n };
     format!("band {} {} {} {} {} {} {} {} {} {} {} {} {} {} {}", T::TAG, n, m1, m2, pad.wr(), flat(&comp), pad2.wr(), flat(&comp2),
-        gen_vec_str::<T>(rng, rl, 10, 0), gen_vec_str::<T>(rng, vl, 10, 0), T::gen(rng, 8, 0).wr(), rng.below(n + 1), rng.below(n + 1),
+        gen_vec_str::<T>(rng, rl, 10, if T::is_exact() { 0 } else { wide }), gen_vec_str::<T>(rng, vl, 10, if T::is_exact() { 0 } else { wide }), T::gen(rng, 8, 0).wr(), rng.below(n + 1), rng.below(n + 1),
         rng.range(-(m1 as i64) - 1, m2 as i64 + 1), T::gen(rng, 0, 0).wr())
 }
 
@@ -166,6 +170,8 @@ pub fn gen(rng: &mut Rng, tier: Tier, out: &mut Vec<String>) {
             let class = rng.below(7);
             out.push(one::<f64>(rng, n, m1, m2, class));
             if (n + m1 + m2) % 3 == 0 { let class = rng.below(5); out.push(one::<Cmplx>(rng, n, m1, m2, class)); }
+            if (n + 2 * m1 + m2) % 3 == 1 { let class = *rng.pick(&[0usize, 1, 3, 4, 6]); let w = 2 + rng.below(2); out.push(one_k::<f64>(rng, n, m1, m2, class, w)); }
+            if (n + m1 + 2 * m2) % 7 == 2 { let class = *rng.pick(&[0usize, 4, 6]); out.push(one_k::<Cmplx>(rng, n, m1, m2, class, 2)); }
         } } }
         // every value class on a few shapes
         for class in 0..7 { for (n, m1, m2) in [(2usize, 1usize, 1usize), (3, 1, 1), (4, 2, 1), (5, 1, 2), (6, 2, 2), (3, 2, 0), (3, 0, 2)] {
